@@ -34,7 +34,8 @@ COMPONENTS = {
         "bits.ecmath.sign / verify / point_scalar_mul / point_add / field helpers",
         "bits.utils.der_encode_sig / der_decode_sig / privkey_int / point, bits.pem ASN.1 codec, bits.crypto.hash256",
     ],
-    "stub": ["entropy source: secrets.randbelow/token_bytes/randbits/choice and os.urandom, scripted by a per-operation tape (boundary draws 0, 1, n-1, n-2; repeated draws; chosen nonces)"],
+    "stub": [
+        "thread scheduler for the concurrent stratum (2-3 simulated caller threads, line-level pre-emption inside ecmath/utils/keys, package re-imported per run)","entropy source: secrets.randbelow/token_bytes/randbits/choice and os.urandom, scripted by a per-operation tape (boundary draws 0, 1, n-1, n-2; repeated draws; chosen nonces)"],
 }
 RULE = (
     "one evaluation = one seeded history of signing operations by 1-4 simulated signers (plain-message, preimage and raw-digest modes; digests incl. 0, n-1, n, n+1, 2^256-1 and digests "
